@@ -84,7 +84,7 @@ def run(c):
     c.trusted += [
         "go2coq irmodel/loaddiff translators (struct inventory, op tables, symbolic execution of printFile's writef/range/printReflectElem statements, special-case extraction; fail closed)",
         "hand-written model of printReflectElemNoNewline's generic part (struct / slice / default branches) -- tied by the correspondence on every case",
-        "string quoting (%q, %#v) and gofmt layout are left to strconv/go/parser: literal trees carry decoded strings",
+        "string quoting: the literal trees carry decoded strings; the decoding (Go's interpreted string literals) is modelled in Quote.v, proved to invert every quoter of the escape class and run on every distinct token of the real output; that strconv.Quote stays inside the class is observed on those tokens, not proved; gofmt layout is left to go/parser",
         "harness/cmd/c05 (value/literal tree encoders, generators) and the generated phase-B program",
         "assumption stated in C05_load_paths_agree: resolving a type through the rules package's imports (config.pkg) or through the importer denotes the same type; checked empirically by the Load vs LoadFromIR runs",
     ]
@@ -107,11 +107,47 @@ def run(c):
                 bhlib.coqchk(c, "RGW.C05")
     elif g1:
         gen_usable = c.coq_compile(["Gen_IR.v"])
-
     hb = c.build_harness("c05")
     if hb is None:
         return c.finish()
     gorules = bhlib.build_gorules(c)
+
+    tokens = []
+
+    def check_tokens(tag):
+        """K for string quoting: Coq's reading of Go interpreted string literals on every distinct token irprint wrote."""
+        if not tokens:
+            return
+        NT = 6
+        jobs = []
+        for k in range(NT):
+            part = tokens[k::NT]
+            if not part:
+                continue
+            src = ["From Coq Require Import List ZArith Bool.", "From RG.Base Require Import Outcome GoSlice.",
+                   "From RG.IR Require Import Quote.", "Import ListNotations. Local Open Scope Z_scope.",
+                   "Definition toks : list (Z * (bytes * bytes)) := ["]
+            src.append(";\n".join("  (%d, (%s, %s))" % (k + NT * j, coq_bytes(bytes(t["raw"])), coq_bytes(bytes(t["dec"]))) for j, t in enumerate(part)))
+            src.append("].")
+            src.append("Definition BAD := Eval vm_compute in map fst (filter (fun t => match unquote_go (fst (snd t)) with "
+                       "Some d => negb (bytes_eqb d (snd (snd t))) | None => true end) toks).")
+            src.append("Print BAD.")
+            jobs.append(("Tokens_%s_%d.v" % (tag, k), "\n".join(src)))
+        for (fname, _), (ok, out) in zip(jobs, c.coq_eval_many(jobs, timeout=900)):
+            if not ok:
+                c.obligation("coq-eval:" + fname, False, out[-2000:])
+                continue
+            m = re.search(r"BAD\s*=\s*\[(.*?)\]", out, re.S)
+            if not m:
+                c.obligation("coq-eval-parse:" + fname, False, out[-1500:])
+                continue
+            for x in re.findall(r"-?\d+", m.group(1)):
+                t = tokens[int(x)]
+                c.fail("corr", "the model's reading of a Go string literal (Quote.unquote_go) differs from strconv.Unquote on a token irprint wrote",
+                       input={"case": t.get("case"), "token": bytes(t["raw"]).decode("utf-8", "replace"), "seed": c.seed},
+                       observed={"strconv.Unquote": t["dec"]})
+        c.coverage["string_tokens_decoded_by_model"] = c.coverage.get("string_tokens_decoded_by_model", 0) + len(tokens)
+        c.coverage["string_tokens_with_escapes"] = c.coverage.get("string_tokens_with_escapes", 0) + sum(1 for t in tokens if 92 in t["raw"])
 
     def observe(n, nrules, seed, tag):
         tmp = os.path.join(c.work, "tmp-" + tag)
@@ -120,6 +156,7 @@ def run(c):
         rc, out = c.run_harness(hb, ["-n", str(n), "-nrules", str(nrules), "-nhist", str(max(24, 2 * nrules)), "-seed", str(seed),
                                      "-tmp", tmp, "-gendir", gendir, "-repo", c.repo] + (["-gorules", gorules] if gorules else []), timeout=900)
         cases = []
+        del tokens[:]
         for line in out.split("\n"):
             line = line.strip()
             if line.startswith("{"):
@@ -127,12 +164,21 @@ def run(c):
                     obj = json.loads(line)
                 except ValueError:
                     continue
-                if "history" not in obj:
+                if "string_tokens" in obj:
+                    tokens.extend(obj["string_tokens"] or [])
+                elif "history" not in obj:
                     cases.append(obj)
         if rc != 0 or not cases:
             c.obligation("harness-run:c05", False, out[-2000:])
-            return cases, {}
-        # phase B: the real toolchain
+            return cases, None
+        # phase B (the real toolchain) runs in the background while the model is evaluated on the cases
+        from concurrent.futures import ThreadPoolExecutor
+        ex = ThreadPoolExecutor(max_workers=1)
+        fut = ex.submit(phase_b, gendir)
+        ex.shutdown(wait=False)
+        return cases, fut
+
+    def phase_b(gendir):
         tmpl = open(os.path.join(c.verif, "harness", "go.mod.tmpl")).read()
         tmpl = tmpl.replace("@REPO@", c.repo).replace("module verif/harness", "module c05gen")
         tmpl = tmpl.replace("=> ./fake/", "=> " + os.path.join(c.verif, "harness", "fake") + "/")
@@ -161,9 +207,9 @@ def run(c):
                 pass
             # a literal that passed go/types but not the compiler, or a crash of the program: nothing can be concluded
             c.obligation("toolchain-run:c05", False, (out + err)[-2500:])
-        return cases, results
+        return results
 
-    def compare(cases, results, tag):
+    def compare(cases, results_future, tag):
         have = [cs for cs in cases if cs.get("val") is not None and cs.get("lit") is not None]
         coq = {}
         if gen_usable:
@@ -205,6 +251,7 @@ def run(c):
                     coq[int(mm.group(1))] = tuple(x == "true" for x in mm.groups()[1:])
                 if not re.search(r"RES\s*=", out):
                     c.obligation("coq-eval-parse:" + fname, False, out[-1500:])
+        results = results_future.result() if results_future is not None else {}
         # load histories (several files into one engine, every step from source or from the shared precompiled value,
         # optional GroupFilter): ids < 0; the reference is the engine that loads everything from source
         byid = {cs["id"]: cs for cs in cases}
@@ -342,10 +389,12 @@ def run(c):
 
     n, nrules = (120, 12) if not thorough else (1500, 120)
     cases, results = observe(n, nrules, c.seed, "main")
+    check_tokens("main")
     compare(cases, results, "main")
 
     def search():
         cs, rs = observe(200, 20, c.seed + 31, "search")
+        check_tokens("search")
         compare(cs, rs, "search")
 
     c.coverage["exhaustive"] = False
